@@ -15,7 +15,7 @@ from sim import shapes, refmodel as R
 from sim.core import Rng, close
 
 PROPS = ["C09"]
-BUDGET = {"C09": {"quick": {"runs": 8000, "wall_cap_s": 100}, "thorough": {"runs": 200000, "wall_cap_s": 1500}}}
+BUDGET = {"C09": {"quick": {"runs": 16000, "wall_cap_s": 150}, "thorough": {"runs": 300000, "wall_cap_s": 1800}}}
 RULE = {"C09": "one case = one seeded history (2-20 steps) of ctrlptsw / ctrlpts / weights setters and getters, weight scaling, "
                "conversions, helper-converter round trips and weighted-grid operations with rejected setters; non-trivial = at "
                "least two setters of different views with a read of a cached view between them; distinct = distinct "
